@@ -45,6 +45,20 @@ def cases_for(tier, seed):
                     cases.append(c04.build_case("b%d" % n, nodes, base + [cluster.client_op(node, nodes, op, c="a")],
                                                 seed + n, "fifo", strategy=strategy))
                     n += 1
+    # after a primary handover in which the old primary stays a member (forced election on a secondary of three: the
+    # oldest node answers with its own election and wins again), operations issued on every node: still one forward
+    for strategy in ("none", "newer"):
+        nodes = ["n1", "n2", "n3"]
+        for forced in ("n2", "n3"):
+            for node in nodes:
+                for op in (c04.DATA_OPS[0], c04.DATA_OPS[4], c04.DATA_OPS[6]):
+                    for pol in ("fifo", "random"):
+                        body = [cluster.client_op("n1", nodes, c04.DATA_OPS[0]), cluster.client_op("n1", nodes, c04.DATA_OPS[1]),
+                                {"node": forced, "c": "adm", "line": "auth admin adminpwd", "op": {"op": "auth"}},
+                                {"node": forced, "c": "adm", "line": "debug force-election", "op": {"op": "force-election"}},
+                                cluster.client_op(node, nodes, op)]
+                        cases.append(c04.build_case("h%d" % n, nodes, body, seed + n, pol, strategy=strategy))
+                        n += 1
     for c in cases:
         c["budget"] = 1500   # far above the bound of any single operation
     return cases
